@@ -67,6 +67,11 @@ def pos_to_slope_interp(l: list) -> list:
     output = []
     # for sequential pairs in landscape function
     for [[x0, y0], [x1, y1]] in zip(l, l[1:]):
+        if x1 == x0:
+            # two critical points at one abscissa (the sweep can emit them when a
+            # peak and a crossing round to the same value): a segment of length
+            # zero has no slope
+            continue
         slope = (y1 - y0) / (x1 - x0)
         output.append([x0, slope])
     output.append([l[-1][0], 0])
